@@ -133,6 +133,57 @@ def find_fn_for_line(ex, line):
 class UnitResult:
     pass
 
+NOT_SUPPORTED_RE = re.compile(r"error: `([^`]+)` is not supported.*?The following declaration may resolve this error:\n(.*?)\n\n", re.S)
+MISSING_FN_RE = re.compile(r"error\[E0425\]: cannot find function `(\w+)` in this scope")
+
+
+def auto_repair(text, stderr, ex, done):
+    """One round of automatic repair of an assembled unit that Verus could not take:
+    (a) std functions without a vstd spec get the havoc `assume_specification` Verus itself proposes
+        (no ensures: an over-approximation, sound for a passing proof);
+    (b) a helper function of the same source file that the unit did not extract is extracted verbatim
+        (rules R0 R1 R3, no contract).
+    Returns (new_text, [descriptions]) or (None, [])."""
+    adds, notes = [], []
+    for m in NOT_SUPPORTED_RE.finditer(stderr):
+        fn, decl = m.group(1), m.group(2)
+        decl = ' '.join(l.strip() for l in decl.split('\n')).strip()
+        if not decl.startswith('pub assume_specification') or fn in done:
+            continue
+        done.add(fn)
+        decl = decl.rstrip(',; ') + ';'
+        decl = re.sub(r'\s+where\s+(.*?);$', lambda mm: ' where ' + mm.group(1).rstrip(', ') + ';', decl)
+        adds.append('// auto-repair: havoc specification proposed by Verus for an unsupported std function\n' + decl)
+        notes.append('havoc spec for ' + fn)
+    for m in MISSING_FN_RE.finditer(stderr):
+        fn = m.group(1)
+        if fn in done:
+            continue
+        done.add(fn)
+        for rec in ex.records:
+            if rec['file'].startswith('dep:'):
+                continue
+            try:
+                sf = A.load_source(rec['file'])
+            except Exception:
+                continue
+            found = [it for it in sf.items if it.kind == 'fn' and it.name == fn and 'cfg(test)' not in it.attr_text().replace(' ', '')]
+            if len(found) == 1:
+                log = []
+                t = found[0].text
+                for rule in ('R0', 'R1', 'R3'):
+                    t = A.RULES[rule](t, log)
+                adds.append('// auto-repair: helper extracted verbatim from %s (no contract)\n%s' % (rec['file'], t))
+                notes.append('helper fn %s extracted from %s' % (fn, rec['file']))
+                break
+    if not adds:
+        return None, []
+    k = text.rfind('} // verus!')
+    if k < 0:
+        return None, []
+    return text[:k] + '\n'.join(adds) + '\n' + text[k:], notes
+
+
 
 def run_unit(unit_path, tier='quick', seed=0, hooks=None):
     """Assemble + verify one unit.  Returns a dict."""
@@ -193,7 +244,34 @@ def run_unit(unit_path, tier='quick', seed=0, hooks=None):
         r = jobs['base'].result()
         res['cmd'] = r['cmd']
         res['base_wall'] = r['wall']
+        repairs, done, text = [], set(), ex.out_text
+        for _round in range(4):
+            js = r['json']
+            needs = js is None or 'verification-results' not in js or js['verification-results'].get('encountered-vir-error') \
+                or (not breakdown(js, name) and not js['verification-results'].get('success'))
+            if not needs:
+                break
+            text2, notes = auto_repair(text, r['stderr'], ex, done)
+            if text2 is None:
+                break
+            text = text2
+            repairs += notes
+            open(base, 'w').write(text)
+            r = run_verus(base)
+        res['auto_repairs'] = repairs
         classify_base(res, ex, name, r)
+        if repairs:
+            # A proof that passes with havoc specs / uncontracted helpers is sound; one that fails is NOT a
+            # violation (the automatic specs are too weak to decide): undecided, to be settled by a concrete replay.
+            if res['status'] == 'violation':
+                res['undecided'].append('after automatic repair (%s) these obligations do not verify: %s'
+                                        % ('; '.join(repairs), ', '.join(f['function'] for f in res['failed'])))
+                res['weak_failed'] = res['failed']
+                res['failed'] = []
+                res['status'] = 'undecided'
+            res['wall'] = time.time() - t0
+            res['canaries'].append(dict(kind='note', name='auto-repair', status='; '.join(repairs)))
+            return res
         if 'vacuity' in jobs:
             rv = jobs['vacuity'].result()
             bd = breakdown(rv['json'], name + '__vacuity')
@@ -373,8 +451,16 @@ def check_property(pid, tier='quick', seed=0, extra=None):
                 known_hits.append((r['unit'], f, k))
             else:
                 violations.append((r['unit'], f))
-    # bounded stand-ins / extra thorough work supplied by the caller
+    # bounded stand-ins / extra thorough work supplied by the caller.  In the quick tier they run only when
+    # the deductive check could not decide (undecided): a concrete failing input on the real code settles it.
     standins = []
+    if not extra and undecided and not violations:
+        try:
+            import standins as SI
+            os.environ['VERIF_STANDINS'] = '1'
+            extra = SI.for_property(pid, tier)
+        except Exception:
+            extra = None
     if extra:
         for fn in extra:
             try:
